@@ -334,10 +334,13 @@ class Interp:
                 if s.finalbody:
                     self.exec_block(s.finalbody, env)
         elif isinstance(s, ast.Assert):
-            try:
-                holds = self.truth(self.eval(s.test, env), s.test)
-            except Unrecognised:
-                holds = True        # a stated belief whose test is over abstract values: assumed to hold (the concrete evaluations do test it)
+            if not getattr(self, 'concrete_asserts', False):
+                holds = True        # engines over abstract values: an assert is a stated belief, assumed to hold (abstract stand-ins are not the host values it speaks of)
+            else:
+                try:
+                    holds = self.truth(self.eval(s.test, env), s.test)
+                except Unrecognised:
+                    holds = True    # the test reaches a value the engine does not model: assumed to hold
             if not holds:
                 raise RaiseSig('AssertionError', ((self.eval(s.msg, env),) if s.msg is not None else ()), s)
         elif isinstance(s, ast.Raise):
@@ -2296,7 +2299,7 @@ class Interp:
                 raise Unrecognised(self.rule, 'isinstance on a symbolic value', self.mod.rel)
             v = args[0]
             classes = self.class_names(e.args[1], args[1] if len(args) > 1 else None)
-            table = {'str': isinstance(v, (str, ALine)), 'dict': isinstance(v, ADict), 'list': isinstance(v, AList), 'int': isinstance(v, int),
+            table = {'str': isinstance(v, (str, ALine)) or getattr(v, '_is_text', False) is True, 'dict': isinstance(v, ADict), 'list': isinstance(v, AList), 'int': isinstance(v, int),
                      'float': isinstance(v, float), 'bool': isinstance(v, bool), 'complex': isinstance(v, complex), 'tuple': isinstance(v, tuple)}
             concrete = v is None or isinstance(v, (int, float, str, bool, ADict, AList, tuple, complex))
             res = False
